@@ -76,6 +76,8 @@ SCENARIOS = [
 
 
 def canon_item(s):
+    if s == "-0":
+        return "0"      # the model's chains compute over integers; the sign of a zero product is number semantics (C05/C19)
     return "stop" if "StopIter instance" in s else s
 
 
